@@ -64,6 +64,7 @@ type GuardSpec struct {
 	Read, Write       *Expr
 	ReadSrc, WriteSrc string
 	Pkg               string
+	Group             string
 }
 
 type LockSet struct {
@@ -243,7 +244,15 @@ func (db *SpecDB) LoadFile(path string, pkgPath string, trusted bool) error {
 					return fail(fmt.Errorf("protects needs reads <expr> writes <expr>"))
 				}
 				head := strings.Fields(strings.ReplaceAll(rest[:ri], ",", " "))
-				g := &GuardSpec{Type: qualifyTypeName(head[0], pkgPath), Fields: head[2:], Pkg: pkgPath}
+				g := &GuardSpec{Type: qualifyTypeName(head[0], pkgPath), Pkg: pkgPath, Group: "lock"}
+				for k := 2; k < len(head); k++ {
+					if head[k] == "group" && k+1 < len(head) {
+						g.Group = head[k+1]
+						k++
+						continue
+					}
+					g.Fields = append(g.Fields, head[k])
+				}
 				var err error
 				g.ReadSrc = strings.TrimSpace(rest[ri+7 : wi])
 				g.WriteSrc = strings.TrimSpace(rest[wi+8:])
